@@ -5,7 +5,7 @@ mkdir -p /var/tmp/seedtab
 ids="$@"; [ -z "$ids" ] && ids=$(ls seeded)
 for id in $ids; do
   p=$(python3 -c "import json;print(json.load(open('seeded/$id/meta.json'))['property'])")
-  w=$(python3 -c "import json;print(json.load(open('seeded/$id/meta.json'))['worktree'])")
+  w=$(python3 -c "import json;j=json.load(open('seeded/$id/meta.json'));print(j.get('worktree', j.get('worktree_was','')))")
   [ -d "$w/src" ] || { echo "$id: worktree $w is gone"; continue; }
   s=$(date +%s)
   VERIF_REPO=$w bin/check $p --no-evidence > /var/tmp/seedtab/$id.log 2>&1; rc=$?
